@@ -218,11 +218,10 @@ func decodeString(src *bufio.Reader, noQuotes bool) []byte {
 	length := decodeIntAdditionalType(src, minor)
 	len := int(length)
 	pbs := readNBytes(src, len)
-	result = append(result, pbs...)
 	if noQuotes {
-		return result
+		return append(result, pbs...)
 	}
-	return append(result, '"')
+	return appendQuotedJSON(pbs)
 }
 func decodeStringToDataUrl(src *bufio.Reader, mimeType string) []byte {
 	pb := readByte(src)
@@ -257,11 +256,17 @@ func decodeUTF8String(src *bufio.Reader) []byte {
 	if major != majorTypeUtf8String {
 		panic(fmt.Errorf("Major type is: %d in decodeUTF8String", major))
 	}
-	result := []byte{'"'}
 	length := decodeIntAdditionalType(src, minor)
 	len := int(length)
 	pbs := readNBytes(src, len)
+	return appendQuotedJSON(pbs)
+}
 
+// appendQuotedJSON returns pbs as a quoted JSON string, escaping what JSON
+// requires to be escaped.
+func appendQuotedJSON(pbs []byte) []byte {
+	result := []byte{'"'}
+	len := len(pbs)
 	for i := 0; i < len; i++ {
 		// Check if the character needs encoding. Control characters, slashes,
 		// and the double quote need json encoding. Bytes above the ascii
